@@ -124,7 +124,7 @@ func verifHarness_C06_order() {
 	if got != nil && g < 0 {
 		// a cached copy: identify it by its pattern and methods
 		for i := range routes {
-			if routes[i].path == got.path && verifSameStrings(routes[i].methods, got.methods) {
+			if routes[i].Path() == got.Path() && verifSameStrings(routes[i].Methods(), got.Methods()) {
 				g = i
 			}
 		}
